@@ -400,6 +400,7 @@ func runC18(t *testing.T, in *driver.WorkerIn) *driver.WorkerOut {
 	}
 
 	handle := func(h History, enum bool) {
+		driver.Progress()
 		st.histories++
 		st.clockOffsets[h.ClockN] = struct{}{}
 		hh := driver.StrSeed(h.String())
